@@ -7,6 +7,7 @@ computes for the same arguments.  A disagreement is a fault of the machinery (ex
 """
 import os
 import random
+import re
 import tempfile
 
 import z3
@@ -18,9 +19,10 @@ TEMPLATES_BYTES = [
     'a.startswith(b)', 'a.endswith(b)', 'len(a)', 'not a', 'a[i:i + 1] == b', 'a.find(b)', 'len(a[i:j])', 'a[i:j] + b[j:]',
     '(a if i < j else b)', 'a and b', 'a or b', 'bool(a)', 'a[i:j] == b[i:j]', 'min(i, j)', 'max(i, j, 3)', 'i - j', 'i * 2 + j',
     'i < j <= 5', 'i == j', 'not i', 'len(a) - i', 'a[len(a) - 1:]', 'a.split(b"x", 1)[0]', 'a.split(b"x")[-1]', 'a.split(b"x")[0]', 'len(a.split(b"x", 1))', 'b * 2',
-    'a[i:j] == b"" ', '-i', 'i >= j or a == b', 'i > 0 and j > 0',
+    'a[i:j] == b"" ', '-i', 'i >= j or a == b', 'i > 0 and j > 0', 'a.strip(b"x")', 'a.lstrip(b"x")', 'a.rstrip(b"x")', 'a.rstrip(b"x/")',
+    'a.lstrip(b"/x") + b',
 ]
-TEMPLATES_STR = [t.replace('b"x"', '"x"').replace('b""', '""') for t in TEMPLATES_BYTES] + ['a[i:j] in b', '"x" in a', 'a[0:1] == "x"']
+TEMPLATES_STR = [re.sub(r'b("[^"]*")', r'\1', t) for t in TEMPLATES_BYTES] + ['a[i:j] in b', '"x" in a', 'a[0:1] == "x"']
 
 
 class _Concrete(Contract):
